@@ -345,6 +345,10 @@ func (fr *Frame) callContract(bc *BoundContract, args []Val, p token.Pos) []Val 
 		}
 	}
 	for i, rq := range c.Requires {
+		if rq.Assumed {
+			fr.cx.trust(fmt.Sprintf("entry invariant of %s (assumed at its entry, not demanded from this caller): %s", bc.Short(), rq.Text))
+			continue
+		}
 		if g := fr.evalClause(env, rq); g != nil {
 			fr.oblige("call-pre", site+"."+clauseLabel(rq, i), rq.Text, p, g)
 		}
